@@ -4,7 +4,7 @@ From OV Require Import C14.Model.
 Open Scope Z_scope.
 
 (* number of renewals (OPN frames / responses) in a queue *)
-Fixpoint nopn (l : list frame) : Z := match l with [] => 0 | FOpn :: r => 1 + nopn r | FMsg _ :: r => nopn r end.
+Fixpoint nopn (l : list frame) : Z := match l with [] => 0 | FOpn :: r => 1 + nopn r | FMsg _ :: r => nopn r | FBad :: r => nopn r end.
 Fixpoint nropn (l : list resp) : Z := match l with [] => 0 | ROpn :: r => 1 + nropn r | RMsg :: r => nropn r end.
 
 (* every symmetric frame on a link carries the epoch its receiver will have when it reaches it:
@@ -14,21 +14,23 @@ Fixpoint link_ok (e : Z) (l : list frame) : Prop :=
   | [] => True
   | FMsg m :: r => m = e /\ link_ok e r
   | FOpn :: r => link_ok (e + 1) r
+  | FBad :: r => link_ok e r
   end.
 
 Lemma nopn_app a b : nopn (a ++ b) = nopn a + nopn b.
-Proof. induction a as [|[m|] a IH]; cbn [nopn app]; lia. Qed.
+Proof. induction a as [|[m| |] a IH]; cbn [nopn app]; lia. Qed.
 Lemma nropn_app a b : nropn (a ++ b) = nropn a + nropn b.
 Proof. induction a as [|[|] a IH]; cbn [nropn app]; lia. Qed.
-Lemma nopn_nonneg l : 0 <= nopn l. Proof. induction l as [|[m|] l IH]; cbn [nopn]; lia. Qed.
+Lemma nopn_nonneg l : 0 <= nopn l. Proof. induction l as [|[m| |] l IH]; cbn [nopn]; lia. Qed.
 Lemma nropn_nonneg l : 0 <= nropn l. Proof. induction l as [|[|] l IH]; cbn [nropn]; lia. Qed.
 
 Lemma link_ok_app e a b : link_ok e (a ++ b) <-> link_ok e a /\ link_ok (e + nopn a) b.
 Proof.
-  revert e. induction a as [|[m|] a IH]; intro e; cbn [app link_ok nopn].
+  revert e. induction a as [|[m| |] a IH]; intro e; cbn [app link_ok nopn].
   - rewrite Z.add_0_r. tauto.
   - rewrite IH. tauto.
   - rewrite IH. replace (e + 1 + nopn a) with (e + (1 + nopn a)) by lia. tauto.
+  - rewrite IH. tauto.
 Qed.
 
 Lemma has_ropn_false l : has_ropn l = false -> nropn l = 0.
@@ -56,7 +58,7 @@ Ltac fin :=
   try assumption; try lia.
 
 (* outside the known classes a step preserves the invariant and rejects nothing *)
-Lemma step_ok s o : Inv s -> racy s o = 0 -> Inv (fst (step s o)) /\ snd (step s o) <> 0.
+Lemma step_ok s o : Inv s -> racy s o = 0 -> Inv (fst (step s o)) /\ snd (step s o) <> 0 /\ snd (step s o) < 6.
 Proof.
   destruct s as [ce0 se0 rn l1 q l2]. unfold Inv. cbn [ce se renewing c2s sq s2c].
   intros (H1 & H2 & H3 & H4) Hr.
@@ -64,29 +66,34 @@ Proof.
   destruct o; cbn [step racy ce se renewing c2s sq s2c] in *.
   - (* CSend *) destruct rn; [discriminate|]. cbn [fst snd ce se renewing c2s sq s2c]. fin.
   - (* CRenew *) destruct rn; cbn [fst snd ce se renewing c2s sq s2c]; fin.
-  - (* SRecv *) destruct l1 as [|[m|] r]; cbn [fst snd ce se renewing c2s sq s2c].
+  - (* SRecv *) destruct l1 as [|[m| |] r]; cbn [fst snd ce se renewing c2s sq s2c].
     + fin.
     + cbn [link_ok] in H1. destruct H1 as [Hm H1]. subst m. rewrite Z.eqb_refl.
       cbn [fst snd ce se renewing c2s sq s2c]. fin.
+    + fin.
     + fin.
   - (* SWrite *) destruct q as [|[|] r]; cbn [fst snd ce se renewing c2s sq s2c].
     + fin.
     + destruct (has_ropn r) eqn:Hh; [discriminate|]. apply has_ropn_false in Hh. fin.
     + fin.
-  - (* CRecv *) destruct l2 as [|[m|] r]; cbn [fst snd ce se renewing c2s sq s2c].
+  - (* CRecv *) destruct l2 as [|[m| |] r]; cbn [fst snd ce se renewing c2s sq s2c].
     + fin.
     + cbn [link_ok] in H2. destruct H2 as [Hm H2]. subst m. rewrite Z.eqb_refl. fin.
     + pose proof (nopn_nonneg r). destruct rn; fin.
+    + fin.
+  - (* CForge *) cbn [fst snd ce se renewing c2s sq s2c]. fin.
+  - (* SForge *) cbn [fst snd ce se renewing c2s sq s2c]. fin.
 Qed.
 
-Lemma run_from_ok c : forall s, Inv s -> known_from s c = 0 -> ~ In 0 (run_from s c) /\ length (run_from s c) = length c.
+Lemma run_from_ok c : forall s, Inv s -> known_from s c = 0 ->
+  (forall x, In x (run_from s c) -> x <> 0 /\ x < 6) /\ length (run_from s c) = length c.
 Proof.
-  induction c as [|o c IH]; intros s Hs Hk; [split; [intros []|reflexivity]|].
+  induction c as [|o c IH]; intros s Hs Hk; [split; [intros x []|reflexivity]|].
   cbn [known_from] in Hk. destruct (racy s o =? 0) eqn:Hr; [|apply Z.eqb_neq in Hr; lia].
-  apply Z.eqb_eq in Hr. destruct (step_ok s o Hs Hr) as [Hi Hx].
+  apply Z.eqb_eq in Hr. destruct (step_ok s o Hs Hr) as (Hi & Hx & Hx6).
   cbn [run_from]. destruct (step s o) as [s' x] eqn:E. cbn [fst snd] in *.
   destruct (IH s' Hi Hk) as [Hn Hl]. split.
-  - intros [H0|H0]; [congruence | exact (Hn H0)].
+  - intros y [H0|H0]; [subst y; split; assumption | exact (Hn y H0)].
   - cbn [length]. rewrite Hl. reflexivity.
 Qed.
 
@@ -94,13 +101,68 @@ Qed.
    renewal) no correctly secured message is ever rejected, for operation sequences of any length
    and any number of renewals *)
 Theorem no_reject_outside_known c : known c = 0 -> ~ In 0 (run c) /\ length (run c) = length c.
-Proof. intro Hk. apply run_from_ok; [apply inv_init | exact Hk]. Qed.
+Proof.
+  intro Hk. destruct (run_from_ok c init inv_init Hk) as [Hn Hl]. split; [|exact Hl].
+  intro H0. destruct (Hn 0 H0) as [Hne _]. congruence.
+Qed.
+
+(* the second sentence of the property, in the model: a frame secured under keys of a token the
+   receiver never issued is never accepted -- on EVERY schedule, racy or not, any number of renewals *)
+Lemma step_not_6 s o : snd (step s o) <> 6.
+Proof.
+  destruct o; cbn [step].
+  - cbn; lia.
+  - destruct (renewing s); cbn; lia.
+  - destruct (c2s s) as [|[m| |] r]; [cbn; lia| |cbn; lia|cbn; lia]. destruct (m =? se s); cbn; lia.
+  - destruct (sq s) as [|[|] r]; cbn; lia.
+  - destruct (s2c s) as [|[m| |] r]; [cbn; lia| |cbn; lia|cbn; lia]. cbn [snd]. destruct (m =? ce s); lia.
+  - cbn; lia.
+  - cbn; lia.
+Qed.
+
+Theorem forged_never_accepted c : ~ In 6 (run c).
+Proof.
+  unfold run. generalize init. induction c as [|o c IH]; intros s; [intros []|].
+  cbn [run_from]. pose proof (step_not_6 s o) as H6. destruct (step s o) as [s' x]. cbn [snd] in H6.
+  intros [H|H]; [congruence | exact (IH s' H)].
+Qed.
+
+(* a quiescent renewal -- nothing on the links, nothing queued, no renewal outstanding -- always
+   succeeds and leaves both endpoints on the same, next, token with the links empty again: the
+   channel is as healthy as before, from ANY such state (hence after any number of renewals) *)
+Theorem quiescent_renewal_resyncs s :
+  ce s = se s -> renewing s = false -> c2s s = [] -> sq s = [] -> s2c s = [] ->
+  let s1 := fst (step s CRenew) in let s2 := fst (step s1 SRecv) in
+  let s3 := fst (step s2 SWrite) in let s4 := fst (step s3 CRecv) in
+  run_from s [CRenew; SRecv; SWrite; CRecv] = [4; 2; 4; 2] /\
+  ce s4 = ce s + 1 /\ se s4 = ce s4 /\ renewing s4 = false /\ c2s s4 = [] /\ sq s4 = [] /\ s2c s4 = [].
+Proof.
+  destruct s as [ce0 se0 rn l1 q l2]. cbn [ce se renewing c2s sq s2c].
+  intros -> -> -> -> ->. cbn. repeat split.
+Qed.
+
+(* after a rejection-free history in which every renewal has completed and the links have drained,
+   both endpoints hold the same token: nothing is left that could be rejected later *)
+Theorem drained_means_in_sync c :
+  let s := fold_left (fun s o => fst (step s o)) c init in
+  known c = 0 -> c2s s = [] -> sq s = [] -> s2c s = [] -> ce s = se s /\ renewing s = false.
+Proof.
+  cbv zeta. unfold known.
+  assert (G : forall s0, Inv s0 -> known_from s0 c = 0 -> Inv (fold_left (fun s o => fst (step s o)) c s0)).
+  { induction c as [|o c IH]; intros s0 Hs Hk; [exact Hs|].
+    cbn [known_from] in Hk. destruct (racy s0 o =? 0) eqn:Hr; [|apply Z.eqb_neq in Hr; lia].
+    apply Z.eqb_eq in Hr. cbn [fold_left]. apply IH; [apply (step_ok s0 o Hs Hr) | exact Hk]. }
+  intros Hk H1 H2 H3. specialize (G init inv_init Hk).
+  destruct G as (_ & _ & G3 & G4). rewrite H1, H2, H3 in *. cbn [nopn nropn] in *.
+  split; [lia|]. destruct (renewing _); [lia | reflexivity].
+Qed.
 
 Theorem oracle_holds c : known c = 0 -> oracle c (run c) = true.
 Proof.
-  intro Hk. destruct (no_reject_outside_known c Hk) as [Hn Hl]. unfold oracle.
+  intro Hk. destruct (run_from_ok c init inv_init Hk) as [Hn Hl]. unfold oracle. fold (run c) in *.
   rewrite Hl, Nat.eqb_refl. cbn [andb]. apply forallb_forall. intros x Hx.
-  destruct (Z.eqb_spec x 0); [subst; contradiction | reflexivity].
+  destruct (Hn x Hx) as [Hne H6].
+  destruct (Z.eqb_spec x 0); [contradiction|]. cbn [negb andb]. apply Z.ltb_lt. exact H6.
 Qed.
 
 (* the refutations: each known class contains a schedule on which a correctly secured message is
@@ -114,4 +176,123 @@ Proof. exists [CSend; SRecv; CRenew; SRecv; SWrite; CRecv]. split; reflexivity. 
 Example quiescent_renewal_ok :
   known [CSend; SRecv; SWrite; CRecv; CRenew; SRecv; SWrite; CRecv; CSend; SRecv; SWrite; CRecv] = 0 /\
   run [CSend; SRecv; SWrite; CRecv; CRenew; SRecv; SWrite; CRecv; CSend; SRecv; SWrite; CRecv] = [4; 1; 4; 1; 4; 2; 4; 2; 4; 1; 4; 1].
+Proof. split; reflexivity. Qed.
+
+(* ---------- the known classes are exact, not over-approximations ---------- *)
+(* the server takes the next n frames from the client->server link *)
+Fixpoint srecv_n (n : nat) (s : st) : st :=
+  match n with O => s | S n' => srecv_n n' (fst (step s SRecv)) end.
+(* the client takes the next n frames from the server->client link *)
+Fixpoint crecv_n (n : nat) (s : st) : st :=
+  match n with O => s | S n' => crecv_n n' (fst (step s CRecv)) end.
+
+Lemma srecv_step s f r : c2s s = f :: r ->
+  c2s (fst (step s SRecv)) = r /\ se (fst (step s SRecv)) = se s + nopn [f] /\
+  ce (fst (step s SRecv)) = ce s.
+Proof.
+  intro H. cbn [step]. rewrite H. destruct f as [m| |]; [destruct (m =? se s)| |]; cbn; repeat split; lia.
+Qed.
+
+Lemma srecv_n_through l : forall s r, c2s s = l ++ r ->
+  c2s (srecv_n (length l) s) = r /\ se (srecv_n (length l) s) = se s + nopn l /\
+  ce (srecv_n (length l) s) = ce s.
+Proof.
+  induction l as [|f l IH]; intros s r H; cbn [length srecv_n app nopn] in *.
+  - repeat split; [exact H | lia].
+  - destruct (srecv_step s f (l ++ r) H) as (H1 & H2 & H3).
+    destruct (IH _ r H1) as (G1 & G2 & G3). repeat split; [exact G1 | | congruence].
+    rewrite G2, H2. cbn [nopn]. destruct f; lia.
+Qed.
+
+(* class 1 is exact: after any history outside the known classes, if the client secures a request
+   while its renew request is outstanding, the server -- whatever else happens on the other link --
+   holds the NEXT token when that request reaches it, and rejects it *)
+Theorem class1_always_rejected s : Inv s -> renewing s = true ->
+  let s1 := fst (step s CSend) in
+  let s2 := srecv_n (length (c2s s)) s1 in
+  se s2 = ce s + 1 /\ snd (step s2 SRecv) = 0.
+Proof.
+  intros (H1 & H2 & H3 & H4) Hr. cbv zeta. rewrite Hr in H4.
+  assert (E : c2s (fst (step s CSend)) = c2s s ++ [FMsg (ce s)]) by reflexivity.
+  destruct (srecv_n_through (c2s s) _ _ E) as (G1 & G2 & G3).
+  assert (Hse : se (srecv_n (length (c2s s)) (fst (step s CSend))) = ce s + 1).
+  { rewrite G2. cbn [step fst se]. lia. }
+  split; [exact Hse|].
+  remember (srecv_n (length (c2s s)) (fst (step s CSend))) as s2 eqn:Es2. clear Es2.
+  cbn [step]. rewrite G1, Hse.
+  destruct (Z.eqb_spec (ce s) (ce s + 1)); [lia | reflexivity].
+Qed.
+
+Lemma crecv_step s f r : s2c s = f :: r ->
+  s2c (fst (step s CRecv)) = r /\ ce (fst (step s CRecv)) = ce s + nopn [f].
+Proof.
+  intro H. cbn [step]. rewrite H. destruct f as [m| |]; cbn; repeat split; lia.
+Qed.
+
+Lemma crecv_n_through l : forall s r, s2c s = l ++ r ->
+  s2c (crecv_n (length l) s) = r /\ ce (crecv_n (length l) s) = ce s + nopn l.
+Proof.
+  induction l as [|f l IH]; intros s r H; cbn [length crecv_n app nopn] in *.
+  - split; [exact H | lia].
+  - destruct (crecv_step s f (l ++ r) H) as (H1 & H2).
+    destruct (IH _ r H1) as (G1 & G2). split; [exact G1|].
+    rewrite G2, H2. cbn [nopn]. destruct f; lia.
+Qed.
+
+(* class 2 is exact: if the server writes a response that is queued ahead of a renew response,
+   the client still holds the previous token when that response reaches it, and rejects it *)
+Theorem class2_always_rejected s r : Inv s -> sq s = RMsg :: r -> has_ropn r = true ->
+  let s1 := fst (step s SWrite) in
+  let s2 := crecv_n (length (s2c s)) s1 in
+  ce s2 < se s /\ snd (step s2 CRecv) = 0.
+Proof.
+  intros (H1 & H2 & H3 & H4) Hq Hh. cbv zeta.
+  assert (Hn : 1 <= nropn r).
+  { clear -Hh. induction r as [|[|] r IH]; cbn in *; [discriminate| |]; pose proof (nropn_nonneg r); try lia. apply IH. exact Hh. }
+  assert (E : s2c (fst (step s SWrite)) = s2c s ++ [FMsg (se s)]) by (cbn [step]; rewrite Hq; reflexivity).
+  assert (Ece : ce (fst (step s SWrite)) = ce s) by (cbn [step]; rewrite Hq; reflexivity).
+  destruct (crecv_n_through (s2c s) _ _ E) as (G1 & G2).
+  rewrite Hq in H3. cbn [nropn] in H3.
+  assert (Hlt : ce (crecv_n (length (s2c s)) (fst (step s SWrite))) < se s) by (rewrite G2, Ece; lia).
+  split; [exact Hlt|].
+  remember (crecv_n (length (s2c s)) (fst (step s SWrite))) as s2 eqn:Es2. clear Es2.
+  cbn [step]. rewrite G1.
+  destruct (Z.eqb_spec (se s) (ce s2)); [lia | reflexivity].
+Qed.
+
+Definition after (c : case) : st := fold_left (fun s o => fst (step s o)) c init.
+
+Lemma inv_after c : known c = 0 -> Inv (after c).
+Proof.
+  unfold known, after.
+  assert (G : forall s0, Inv s0 -> known_from s0 c = 0 -> Inv (fold_left (fun s o => fst (step s o)) c s0)).
+  { induction c as [|o c IH]; intros s0 Hs Hk; [exact Hs|].
+    cbn [known_from] in Hk. destruct (racy s0 o =? 0) eqn:Hr; [|apply Z.eqb_neq in Hr; lia].
+    apply Z.eqb_eq in Hr. cbn [fold_left]. apply IH; [apply (step_ok s0 o Hs Hr) | exact Hk]. }
+  intro Hk. exact (G init inv_init Hk).
+Qed.
+
+Theorem class1_exact c : known c = 0 -> renewing (after c) = true ->
+  let s := after c in
+  let s2 := srecv_n (length (c2s s)) (fst (step s CSend)) in
+  racy s CSend = 1 /\ se s2 = ce s + 1 /\ snd (step s2 SRecv) = 0.
+Proof.
+  intros Hk Hr. cbv zeta. split; [cbn [racy]; rewrite Hr; reflexivity|].
+  exact (class1_always_rejected (after c) (inv_after c Hk) Hr).
+Qed.
+
+Theorem class2_exact c r : known c = 0 -> sq (after c) = RMsg :: r -> has_ropn r = true ->
+  let s := after c in
+  let s2 := crecv_n (length (s2c s)) (fst (step s SWrite)) in
+  racy s SWrite = 2 /\ ce s2 < se s /\ snd (step s2 CRecv) = 0.
+Proof.
+  intros Hk Hq Hh. cbv zeta. split; [cbn [racy]; rewrite Hq, Hh; reflexivity|].
+  exact (class2_always_rejected (after c) r (inv_after c Hk) Hq Hh).
+Qed.
+
+Example class1_exact_nonvacuous :
+  known [CSend; SRecv; CRenew] = 0 /\ renewing (after [CSend; SRecv; CRenew]) = true.
+Proof. split; reflexivity. Qed.
+Example class2_exact_nonvacuous :
+  known [CSend; SRecv; CRenew; SRecv] = 0 /\ sq (after [CSend; SRecv; CRenew; SRecv]) = [RMsg; ROpn].
 Proof. split; reflexivity. Qed.
